@@ -1,6 +1,6 @@
 """C17 — rendered error reports are terminal-safe, cropped and show the right line (DESIGN §4 C17)."""
 from ..mir import MissingAnchor, sym_contains
-from ..rules import render, aggregates, last_seg, bool_switches, must_pass, switch_edges, int_consts
+from ..rules import render, aggregates, last_seg, bool_switches, must_pass, switch_edges, int_consts, compares
 
 EXPLANATION = ("CHOKE / TAINT / SIBLING rules over the resolved MIR: every formatter write of a rendered report goes through one "
                "sanitising fmt::Write adapter — the public Display / render* paths reach the renderers only through the function "
@@ -126,6 +126,18 @@ def run(ctx):
         vals = {frozenset(v[0]) for v in radii.values()}
         ctx.check(len(vals) == 1 and vals == {frozenset({2})}, "SIBLING", "C17:SIBLING:window:agree", "all three places use two lines of context either side",
                   "the stored window and the rendered window disagree on the number of context lines: %s" % {k.rsplit("::", 1)[-1]: sorted(v[0]) for k, v in radii.items()}, config, ctx.where(fx.fn(sites[0])))
+        # ---- COLUMN: rendering indexes the stored text with the *original* column, so the stored error line keeps its
+        # left prefix: the two-sided cropper is applied to context lines only (the `row == error_row` edge avoids it)
+        cs = fx.fn("de_snipped::crop_source_window")
+        crop2 = [b for b, t in cs.calls() if fx.callee(t) == "de_snipped::crop_line_by_cols"]
+        rowcmp = [c for c in compares(cs) if c["op"] in ("Eq", "Ne") and {c["rl"], c["rr"]} == {"row", "error_row"}]
+        okcol = False
+        for c in rowcmp:
+            err_edge = c["t"] if c["op"] == "Eq" else c["f"]
+            ctx_edge = c["f"] if c["op"] == "Eq" else c["t"]
+            okcol = bool(crop2) and all(cs.edge_dominates(c["block"], ctx_edge, b) for b in crop2)
+        ctx.check(okcol, "COLUMN", "C17:COLUMN:error-line-keeps-prefix", "the error line is never cropped on the left when the window is stored (%d two-sided crop site(s), all on the context-line edge)" % len(crop2),
+                  "crop_source_window applies the two-sided crop to the error line as well: the stored line starts with `…` + a suffix while rendering still indexes it with the original column — the caret sits under the wrong character or the snippet is dropped", config, ctx.where(cs, crop2[0] if crop2 else None))
         # ---- miette adapter
         if any(f.file.endswith("miette.rs") for f in fx.fns.values()):
             rule_miette(ctx, fx, config)
